@@ -6,6 +6,7 @@ import (
 	"math"
 	"runtime/debug"
 	"strings"
+	"sync/atomic"
 
 	"github.com/AdguardTeam/urlfilter/filterlist"
 
@@ -154,10 +155,11 @@ func safely(f func()) (perr string) {
 
 // countingHooks installs hooks that only count scheduling points (no task
 // is parked) and returns the counter and a restore function.
-func countingHooks() (n *int, restore func()) {
-	c := 0
-	filterlist.VerifSetHooks(filterlist.VerifHooks{Yield: func(string, any, int64) { c++ }})
-	return &c, func() { filterlist.VerifSetHooks(filterlist.VerifHooks{}) }
+func countingHooks() (n func() int, restore func()) {
+	// the library may call hooks from goroutines of its own: count atomically
+	c := new(atomic.Int64)
+	filterlist.VerifSetHooks(filterlist.VerifHooks{Yield: func(string, any, int64) { c.Add(1) }})
+	return func() int { return int(c.Load()) }, func() { filterlist.VerifSetHooks(filterlist.VerifHooks{}) }
 }
 
 func fnv(h uint64, s string) uint64 {
